@@ -590,7 +590,6 @@ const (
 	F5 = "delegate-from-missing-account"
 	F7 = "stale-index-reload"
 	F8 = "copy-reindexes-removed-validator"
-	F9 = "inplace-update-then-revert"
 )
 
 var two64 = new(big.Int).Lsh(big.NewInt(1), 64)
@@ -629,7 +628,6 @@ type sideState struct {
 	neg     bool
 	classes map[string]bool
 	revVj   map[int]int // valid revision ids -> length of the validator journal at the snapshot
-	taint   int         // journal entries below this length point at an object that was updated in place since
 	ops     []Op
 	hashes  []uint64
 	panic   bool
@@ -639,7 +637,6 @@ type sideState struct {
 
 func (s *sideState) clone() *sideState {
 	c := &sideState{class: s.class, undisc: s.undisc, neg: s.neg, classes: map[string]bool{}, revVj: map[int]int{}}
-	// (the copy has an empty journal: no taint)
 	for k := range s.classes {
 		c.classes[k] = true
 	}
@@ -708,14 +705,6 @@ func run(h *History, keepRaw bool, trace func(i int, o Op, hs *hasher, c clause)
 					sd.neg = true
 				}
 			}
-			if o.InPlace {
-				// the journal entries whose newVal is the stored object will undo the wrong amounts from now on
-				if r := st.VerifC08Raw(vaddrs[o.A]); r.Present {
-					if d := st.VerifC08AliasDepth(vaddrs[o.A]); d > sd.taint {
-						sd.taint = d
-					}
-				}
-			}
 		case "remove":
 			// removing a validator that still holds delegations leaves the delegators pointing at nothing:
 			// callers must not do that (no business check in RemoveValidator)
@@ -742,10 +731,8 @@ func run(h *History, keepRaw bool, trace func(i int, o Op, hs *hasher, c clause)
 				}
 			}
 		case "revert":
-			if vj, ok := sd.revVj[o.Id]; !ok {
+			if _, ok := sd.revVj[o.Id]; !ok {
 				sd.undisc = true // not a valid revision id
-			} else if vj < sd.taint {
-				enter(F9)
 			}
 		case "copy", "fork":
 			// Copy adds every address of validatorObjectsDirty to the copy's index, removed validators included
@@ -792,15 +779,11 @@ func run(h *History, keepRaw bool, trace func(i int, o Op, hs *hasher, c clause)
 			sd.revVj[nextBefore] = vjBefore
 		case "finalise", "root", "commit", "copy", "fork":
 			sd.revVj = map[int]int{}
-			sd.taint = 0
 		case "revert":
 			for id := range sd.revVj {
 				if id >= o.Id {
 					delete(sd.revVj, id)
 				}
-			}
-			if _, vjNow, _, _, _ := st.VerifC08Counters(); vjNow < sd.taint {
-				sd.taint = vjNow
 			}
 		}
 		hs := observe(st, keepRaw)
@@ -1328,6 +1311,25 @@ func loadCorpus(dir string) []*History {
 	return out
 }
 
+// preRepair7813a3d tells whether the tree the harness was built against still has the behaviour from
+// before commit 7813a3d (the undo of a validator update subtracts *newVal, an object that an in-place
+// update may have rewritten since): it runs the statement sequence of staking.teDelegationSub between a
+// snapshot and a revert and looks at the statistics.  The Coq model is then compared in its variant for
+// that code (Model.step_old), so that the comparison keeps its meaning and the property oracle - which
+// knows no such finding class any more - reports the defect.
+func preRepair7813a3d() bool {
+	w := newWorld()
+	u := &Upd{Role: 1, Status: 0, Token: units(10).String(), Stake: "10", SToken: units(10).String(), SStake: "10", RDist: "0", RT: "0"}
+	for _, o := range []Op{{K: "fund", D: 1}, {K: "create", A: 0, Role: 1, Status: 1, Token: units(10).String(), Stake: "10"},
+		{K: "delegate", A: 0, D: 1, Amt: units(3).String()}, {K: "root"}, {K: "snap"},
+		{K: "delegate", A: 0, D: 1, Amt: "-" + units(3).String()}, {K: "update", A: 0, U: u, InPlace: true}, {K: "revert", Id: 0}} {
+		if p, _ := w.exec(o); p {
+			return false
+		}
+	}
+	return oracle(w.st).stat != ""
+}
+
 func gen(seed uint64, n int, outDir, corpusDir string, flavour int) {
 	// vf.NewRng states of nearby seeds lie a few steps apart on one splitmix orbit: jump to an unrelated point
 	r := vf.NewRng(vf.NewRng(seed).U64() ^ 0xC08C08C08)
@@ -1432,7 +1434,12 @@ func gen(seed uint64, n int, outDir, corpusDir string, flavour int) {
 		}
 		sb.WriteString(caseCoq(c))
 	}
-	sb.WriteString("].\nDefinition M := Eval vm_compute in mismatches cases.\nPrint M.\n")
+	which := "mismatches"
+	if preRepair7813a3d() {
+		which = "mismatches_pre_7813a3d"
+		res.Count("tree:behaviour from before 7813a3d detected (model variant step_old)")
+	}
+	sb.WriteString("].\nDefinition M := Eval vm_compute in " + which + " cases.\nPrint M.\n")
 	vf.WriteFile(filepath.Join(outDir, "Cases.v"), sb.String())
 	res.Cases = len(cases)
 	res.Distinct = len(distinct)
@@ -1485,6 +1492,7 @@ func replay(file string, verbose bool) {
 		for _, pr := range rr.proj {
 			fmt.Println(caseCoq(pr))
 		}
+		fmt.Println("behaviour from before 7813a3d:", preRepair7813a3d())
 	}
 	for i := range rr.failures {
 		if rr.failClass[i] == "" {
